@@ -184,6 +184,9 @@ def run(ctx):
             continue
         Uf, s, Vtf = np.linalg.svd(rec["X2"])
         r = min(n2, p2)
+        if G.sign_near_tie(Vtf[:cfg["k"], :]):
+            ctx.dist["skipped-in-correspondence:sign-rule-near-tie"] += 1
+            continue
         txt, cplx = coq_case(cfg, rec, Uf[:, :r], s[:r], Vtf[:r, :])
         if cplx:
             cplx_cases.append(txt)
